@@ -14,7 +14,7 @@
 From Coq Require Import String.
 From Coq Require Import List Arith Bool Lia ZArith NArith.
 Import ListNotations.
-From YP Require Import Base.Str Term.Term Term.Fast Unify.Unify Unify.Fast Unify.UnifyGen Comp.IR Comp.CompileBody
+From YP Require Import Base.Str Term.Term Term.Fast Term.Dfast Unify.Unify Unify.Fast Unify.UnifyGen Unify.UnifyGenFast Comp.IR Comp.CompileBody
   Sem.IRSem Sem.Machine Engine.GenMachine Engine.Restore Engine.IRMachine.
 Local Open Scope string_scope.
 Local Open Scope list_scope.
@@ -227,7 +227,7 @@ Section Refine.
     ISpec d h g (unify_st (mkst h g) a b) h (ILeaf (mkleaf (XUnify a b) h)).
   Proof.
     intros W. split; [|constructor; apply L_new].
-    unfold unify_st. cbn [mkleaf sto nxt mkst].
+    unfold unify_st. cbn [mkleaf sto nxt mkst]. rewrite mk_unify_x_eq, unify_x_eq, <- unify_fast_eq.
     destruct (unify_fast ufuel h a b) as [s'| | |] eqn:U; cbn [fst snd FSpec].
     - rewrite unify_fast_eq in U.
       destruct (@unify_gen_matches_unify ufuel h a b W) as [A _]. destruct (A _ U) as [g1 [N1 _]].
@@ -237,13 +237,13 @@ Section Refine.
       destruct (@next_quiet n2 g1 s' h2 g2 y2 Q1 N2) as [Y2 _]. subst y2.
       exists (S ufuel), (ILeaf (LGen g1)). cbn [sto nxt it_nxt]. repeat split; auto.
       + intros n L. destruct n as [|n]; [lia|]. rewrite inext_S. cbn [lnext].
-        rewrite (@next_mono ufuel n _ _ _ N1) by lia. reflexivity.
+        rewrite next_x_eq, (@next_mono ufuel n _ _ _ N1) by lia. reflexivity.
       + exists (S n2), h2, (ILeaf (LGen g2)). intros n L. destruct n as [|n]; [lia|]. rewrite inext_S. cbn [lnext].
-        rewrite (@next_mono n2 n _ _ _ N2) by lia. reflexivity.
+        rewrite next_x_eq, (@next_mono n2 n _ _ _ N2) by lia. reflexivity.
     - rewrite unify_fast_eq in U.
       destruct (@unify_gen_matches_unify ufuel h a b W) as [_ B]. destruct (B U) as [g1 N1].
       exists (S ufuel), h, (ILeaf (LGen g1)). intros n L. destruct n as [|n]; [lia|]. rewrite inext_S. cbn [lnext].
-      rewrite (@next_mono ufuel n _ _ _ N1) by lia. reflexivity.
+      rewrite next_x_eq, (@next_mono ufuel n _ _ _ N1) by lia. reflexivity.
     - exists 1, h, (ILeaf LRaise). intros n L. destruct n as [|n]; [lia|]. reflexivity.
     - exists 1, h, (ILeaf LRaise). intros n L. destruct n as [|n]; [lia|]. reflexivity.
   Qed.
@@ -545,7 +545,7 @@ Section Refine.
   Lemma ispec_call d : CallOK d -> forall goal extra g (e : fr) h, wf h ->
     ISpec d h g (call_goal (query d ir) goal extra (mkst h g)) h (mkiter mkleaf prog (call_expr goal extra g e h) h).
   Proof.
-    intros HC goal extra g e h W. unfold call_goal, call_expr. cbn [sto mkst].
+    intros HC goal extra g e h W. unfold call_goal, call_expr. cbn [sto mkst]. rewrite dfast_eq, <- den_fast_eq.
     destruct (den_fast h goal); try apply ispec_raise; cbn [mkiter]; apply HC; exact W.
   Qed.
 
@@ -611,7 +611,7 @@ Section Refine.
     induction xs as [|x r IH]; intros e; cbn [collect_all fold_left map].
     - rewrite app_nil_r. auto.
     - destruct (IH (collect t (nxt x) e (sto x))) as [A [B C]]. fold (collect_all t r (collect t (nxt x) e (sto x))).
-      rewrite A, B, C. cbn [collect f_acc f_aux f_nxt]. rewrite <- app_assoc. auto.
+      rewrite A, B, C. cbn [collect f_acc f_aux f_nxt]. rewrite <- app_assoc, dfast_eq, <- den_fast_eq. auto.
   Qed.
 
   Lemma fold_max_from (xs : list st) : forall a,
